@@ -126,5 +126,6 @@ def standin_oracle(seed, args):
                 failures.append({'input': p, 'detail': d,
                                  'signature': {'family': args.get('label', ''), 'kind': d.get('signature_kind', '')}})
     return {'evaluations': tried, 'exhaustive': False,
-            'scope': f"{tried} random cases of family {args.get('label', fam)} (domains of {fam.get('n', 3)} objects, depth <= {fam.get('depth', 2)})",
+            'scope': f"{tried} random cases of family '{args.get('label', '')}', generator parameters {fam} (unset parameters: the "
+                     f"generator's defaults in replay/probes.py)",
             'failures': failures, 'n_failures': len(failures)}
